@@ -1,7 +1,9 @@
 package trie
 
 import (
+	"bytes"
 	"fmt"
+	"github.com/openacid/slim/encode"
 	"sort"
 	"strings"
 
@@ -156,6 +158,55 @@ func genC05(c *lp.Ctx) {
 
 // genC05empty: the stream of an EMPTY trie loaded into an instance that holds a non-empty one (no
 // Reset in between), and the other way round: answers, Stat, String and re-Marshal as from a fresh load.
+// genC05twoInstances: two instances that were both born empty (NewSlimTrie without keys) each load a different
+// stream by a direct Unmarshal call: they must stay independent, and an instance born empty afterwards is empty.
+func genC05twoInstances(c *lp.Ctx) {
+	for it := 0; it < c.Pick(30, 120); it++ {
+		a := NewCase(c.Rng, gen.Any(c.Rng, 150), "", "")
+		b := NewCase(c.Rng, gen.Any(c.Rng, 150), "", a.Enc)
+		if len(a.Keys) == 0 || len(b.Keys) == 0 {
+			continue
+		}
+		if lp.Exec(a.Line()) != "ok" {
+			continue
+		}
+		bufA := currentStream()
+		if lp.Exec(b.Line()) != "ok" {
+			continue
+		}
+		bufB := currentStream()
+		if bufA == nil || bufB == nil {
+			continue
+		}
+		qs := gen.Queries(c.Rng, a.Keys, 25)
+		c.Do("trie.fresh " + a.Enc)
+		if got := c.Do("trie.unmarshal " + lp.X(bufA)); got != "ok" {
+			continue
+		}
+		want := a.battery(c, qs, false)
+		mA := c.Do("trie.marshal")
+		c.Do("trie.stash A")
+		c.Do("trie.fresh " + a.Enc)
+		if got := c.Do("trie.stat"); !strings.Contains(got, " keys=0 nodes=0") {
+			a.viol(c, "an instance born empty after another instance loaded a stream is empty", "trie.fresh; trie.stat", "… keys=0 nodes=0", got)
+		}
+		c.Do("trie.unmarshal " + lp.X(bufB))
+		c.Do("trie.unstash A")
+		c.Hit("history:fresh,U(A) | fresh,U(B) | ask A")
+		c.Case(a.Key()+"/two-instances", true)
+		got := a.battery(c, qs, false)
+		for i := range want {
+			if got[i] != want[i] {
+				a.viol(c, "an instance that loaded A is unaffected by another instance loading B (answer #"+fmt.Sprint(i)+")", "trie.unstash A; …", want[i], got[i])
+				break
+			}
+		}
+		if m := c.Do("trie.marshal"); m != mA {
+			a.viol(c, "re-marshalling a loaded trie reproduces the same bytes (after another instance loaded another stream)", "trie.marshal", mA, m)
+		}
+	}
+}
+
 func genC05empty(c *lp.Ctx) {
 	n := c.Pick(40, 150)
 	for it := 0; it < n; it++ {
@@ -635,6 +686,65 @@ func genC20shortValues(c *lp.Ctx) {
 	}
 }
 
+// genC20bigStream: a stream whose value section is larger than 64 KiB (20000 keys with 4-byte values; thorough also
+// 70000), loaded from a caller-owned buffer that is overwritten afterwards — on the implementation only (a size
+// threshold the script protocol does not reach): every sampled key still answers with its value, and Marshal still
+// gives the original bytes.
+func genC20bigStream(c *lp.Ctx) {
+	for _, n := range []int{20000, 70000}[:c.Pick(1, 2)] {
+		keys := make([]string, n)
+		vals := make([]int32, n)
+		for i := range keys {
+			keys[i] = fmt.Sprintf("key-%07d", 3*i)
+			vals[i] = int32(i + 1)
+		}
+		for pat := 0; pat < 3; pat++ {
+			bad := func() (bad string) {
+				defer func() {
+					if r := recover(); r != nil {
+						bad = fmt.Sprintf("panic: %v", r)
+					}
+				}()
+				st, err := slim.NewSlimTrie(encode.I32{}, keys, vals, []slim.Opt{{}, {Complete: slim.Bool(true)}}[pat%2])
+				if err != nil {
+					return "NewSlimTrie: " + err.Error()
+				}
+				orig, err := st.Marshal()
+				if err != nil {
+					return "Marshal: " + err.Error()
+				}
+				buf := append([]byte{}, orig...)
+				st2, _ := slim.NewSlimTrie(encode.I32{}, nil, nil)
+				if err := st2.Unmarshal(buf); err != nil {
+					return "Unmarshal: " + err.Error()
+				}
+				if !bytes.Equal(buf, orig) {
+					return "Unmarshal modified its input buffer"
+				}
+				scribble(buf, fmt.Sprint(pat))
+				for i := 0; i < n; i += 1 + n/400 {
+					v, ok := st2.Get(keys[i])
+					if !ok || v == nil || v.(int32) != vals[i] {
+						return fmt.Sprintf("after the input buffer was overwritten Get(%q) = %v, %v; want %d, true", keys[i], v, ok, vals[i])
+					}
+				}
+				again, err := st2.Marshal()
+				if err != nil || !bytes.Equal(again, orig) {
+					return "Marshal of the loaded trie changed after the input buffer was overwritten"
+				}
+				return ""
+			}()
+			c.Case(fmt.Sprintf("big-stream|%d|%d", n, pat), true)
+			c.Hit(fmt.Sprintf("big-stream-scribble:n=%d", n))
+			if bad != "" {
+				c.Violate(lp.Violation{What: "overwriting the input buffer after Unmarshal changes no answer (big stream, implementation only)",
+					Script:   []string{fmt.Sprintf("NewSlimTrie(I32, %d keys); Marshal; Unmarshal(buf); overwrite buf (pattern %d); Get / Marshal", n, pat)},
+					Expected: "answers and Marshal unchanged", Got: bad})
+			}
+		}
+	}
+}
+
 func genC20(c *lp.Ctx) {
 	genC20shortValues(c)
 	n := c.Pick(200, 700)
@@ -748,4 +858,6 @@ func init() {
 	lp.RegisterGen("C05", genC05empty)
 	lp.RegisterGen("C17", genC17)
 	lp.RegisterGen("C20", genC20)
+	lp.RegisterGen("C20", genC20bigStream)
+	lp.RegisterGen("C05", genC05twoInstances)
 }
